@@ -181,7 +181,11 @@ def build_target(us, t, workdir, extra_defines=()):
         raise Undecided('goto-instrument --add-library failed for %s/%s:\n%s' % (us.name, t.id, out1[-3000:]))
     cmd = ['goto-instrument', '--dfcc', 'H']
     if t.enforce: cmd += ['--enforce-contract', t.enforce]
-    for r in list(t.replace) + [a for a in getattr(us, 'auto_stubs', []) if a not in t.replace]: cmd += ['--replace-call-with-contract', r]
+    ctext = open(cfile).read()
+    for r in list(t.replace) + [a for a in getattr(us, 'auto_stubs', []) if a not in t.replace]:
+        # a contract stub that the (possibly changed) code no longer calls is not in the goto binary: goto-instrument aborts on it
+        if len(re.findall(r'\b%s\s*\(' % re.escape(r), ctext)) < 2: continue
+        cmd += ['--replace-call-with-contract', r]
     if t.loops: cmd += ['--apply-loop-contracts']
     cmd += [base + '.a.gb', base + '.b.gb']
     rc, out2, _ = run(cmd, 600)
